@@ -708,6 +708,7 @@ class Engine(ExprMixin, CallMixin, StmtMixin):
     def verify(self, qual):
         c = self.reg.contracts[qual]
         self.cur, self.obls, self.strs, self.loop_pre = c, [], {}, {}
+        self._setcomp_cache = {}
         self.cur_module = c.file
         self.local_imports = {}
         self.local_defs = {}
